@@ -98,6 +98,11 @@ CHECKS = {
    text="36 indicators with signals, generated configurations (all MA kinds) and candle streams: at every step each signal slot is recomputed from the returned values, the candle and the configuration with independent crossing/reversal/latch/counter detectors and an independent float->strength conversion, and must equal the returned Action. Evidence lists per slot whether Buy and Sell fired (all slots fire in both directions in 16-97% of cases).",
    note="Rules are the ones frozen in DESIGN §6. Known findings (listed): PivotReversalStrategy and TrendStrengthIndex #2 implement another rule than documented (deviation models keep other regressions visible).",
    ref="DESIGN.md §5 C05/C06, §6"),
+ "C05": dict(
+   technique="PBT differential against 37 independent reference indicators composed from naive reference methods in value+-allowance arithmetic",
+   text="Every indicator with generated valid configurations (every MA kind, boundary periods) on generated valid candle streams (flat stretches, gaps, zero volume, regime streams): every raw value at every step must lie in the interval of the reference formula of DESIGN §6, whose error is propagated through sums, products and quotients from the per-method allowance K*eps*(n+t)*M*g.",
+   note="Trusted: refi.rs / props/c05.rs references (no call into yata::methods or yata::indicators), K=256. Ill-conditioned quotients are exempt and undecidable state-changing branches cut the case (both counted in evidence: about 3% of value comparisons exempt, ADX and SAR cases cut at an ambiguous test).",
+   ref="DESIGN.md §5 C05/C06, §6, §4.3"),
 }
 
 PENDING = {
